@@ -304,6 +304,15 @@ def snapshot(root):
     return out
 
 
-def tree_content(root):
-    """content-only view of a tree (kind, size, hash), for comparing source and destination"""
-    return {k: (v[0], v[1], v[2]) for k, v in snapshot(root).items()}
+def tree_content(root, read_view=False):
+    """content-only view of a tree (kind, size, hash), for comparing source and destination; read_view: as a reader sees it - a
+    symbolic link to a file is the file's content under the link's name (what `wormhole send` reads and packs)"""
+    out = {k: (v[0], v[1], v[2]) for k, v in snapshot(root).items()}
+    if read_view:
+        for k, v in list(out.items()):
+            p = os.path.join(root, k)
+            if v[0] == "link" and os.path.isfile(p):
+                with open(p, "rb") as f:
+                    data = f.read()
+                out[k] = ("file", len(data), hashlib.sha256(data).hexdigest())
+    return out
